@@ -13,6 +13,18 @@ theorem ExtOn.toExt {K : Addr → Prop} {st st' : St} (h : ExtOn K st st')
     (hK : ∀ (x : Addr) (c : Cell), st.heap[x]? = some c → K x) : Ext st st' :=
   ⟨fun x c _ hx => h.cells x c (hK x c hx) hx, h.pers, h.len, h.db, h.roots, h.csize⟩
 
+/-- What `addOrphans` needs of an orphaned object. -/
+def Valid (st : St) (x : Addr) : Prop := ∃ c, st.heap[x]? = some c ∧ (c.persisted = true → c.hash.isSome = true)
+
+theorem Rep.valid {P : Addr → Prop} {st : St} {t : Node} {a : Addr} (h : Rep H P st t a) : Valid st a := by
+  obtain ⟨_, c, hc, _, _, _, _, _, _, hp⟩ := Rep.cell H h
+  exact ⟨c, hc, fun hpers => by rw [(hp hpers).1]; rfl⟩
+
+theorem Valid.ext {K : Addr → Prop} {st st' : St} {x : Addr} (h : Valid st x) (hext : ExtOn K st st') (hk : K x) :
+    Valid st' x := by
+  obtain ⟨c, hc, hp⟩ := h
+  exact ⟨c, hext.cells x c hk hc, hp⟩
+
 /-- Building a representation of an inner node from its object and its two slots. -/
 theorem Rep.mk_inner {P : Addr → Prop} {st : St} {a : Addr} {c : Cell} {k : Bytes} {h s ver : Nat} {l r : Node}
     (hPa : P a) (ha : st.heap[a]? = some c) (hk : c.key = k) (hh : c.height = h) (h0 : h ≠ 0)
@@ -63,7 +75,8 @@ theorem rotateRight_spec {P : Addr → Prop} {st : St} {a : Addr} {c : Cell} {k 
     (hr : Slot H P st r c.rightPtr c.rightHash) :
     ∃ st' n o cn, rotateRight Cfg.asIs version st a = some (st', n, o) ∧ Ext st st' ∧ CacheOK st' ∧
       Rep H (Fresh st P) st' (Node.rotateRight version (.inner k h s (.inner lk lh ls ll lr lver) r ver)) n ∧
-      st.heap.length ≤ n ∧ st'.heap[n]? = some cn ∧ cn.persisted = false ∧ cn.hash = none := by
+      st.heap.length ≤ n ∧ st'.heap[n]? = some cn ∧ cn.persisted = false ∧ cn.hash = none ∧
+      Rep H (Fresh st P) st' (.inner lk lh ls ll lr lver) o := by
   -- footprints below the allocation point
   let P0 : Addr → Prop := fun x => P x ∧ x < st.heap.length
   have hl0 : Slot H P0 st (.inner lk lh ls ll lr lver) c.leftPtr c.leftHash := Slot.restrict H hl
@@ -81,6 +94,7 @@ theorem rotateRight_spec {P : Addr → Prop} {st : St} {a : Addr} {c : Cell} {k 
   obtain ⟨st2, o, hg, he2, hc2, hro⟩ := getLeft_spec H hc1 hnode1 hl1
   -- restrict to objects of st2
   have hro' := Rep.restrict H hro
+  have hroQ := hro'
   let Q : Addr → Prop := fun x => Fresh st1 P0 x ∧ x < st2.heap.length
   obtain ⟨hQo, co, hco, hcok, hcoh, hlh0, hcos, hcov, hsll, hslr, _, _⟩ := hro'
   have hnodeQ : ¬ Q node := fun hq =>
@@ -152,7 +166,12 @@ theorem rotateRight_spec {P : Addr → Prop} {st : St} {a : Addr} {c : Cell} {k 
     · exact Fresh.of_ext he1 (fun y hy => Or.inl hy.1) hx.1
     · exact Or.inr (Or.inl (by rw [hx]; exact Nat.le_refl _))
   have hlen : st.heap.length ≤ newNode := Nat.le_trans he1.len he2.len
-  refine ⟨st7, newNode, o, _, ?_, ?_, hc7, ?_, hlen, hnn7, rfl, rfl⟩
+  have horph : Rep H (Fresh st P) st7 (.inner lk lh ls ll lr lver) o := by
+    have h5 := Rep.ext H hroQ hQ25 (fun _ hx => hx)
+    have h6 := Rep.ext H h5 he6 (fun x hx e => hnodeQ (e ▸ hx))
+    have h7 := Rep.ext H h6 he7 (fun x hx e => hnnQ (e ▸ hx))
+    exact Rep.mono H h7 (fun x _ hx _ => hQfresh x (Or.inl hx))
+  refine ⟨st7, newNode, o, _, ?_, ?_, hc7, ?_, hlen, hnn7, rfl, rfl, horph⟩
   · have e1 : clone st a version = some (st1, node) := clone_spec' ha hc0 version
     have e3 : clone st2 o version = some (st3, newNode) := clone_spec' hco hco0 version
     have e4 : st3.modify newNode (fun c => { c with rightHash := cn.hash, rightPtr := some node }) = some st4 :=
@@ -188,7 +207,8 @@ theorem rotateLeft_spec {P : Addr → Prop} {st : St} {a : Addr} {c : Cell} {k :
     (hr : Slot H P st (.inner rk rh rs rl rr rver) c.rightPtr c.rightHash) :
     ∃ st' n o cn, rotateLeft Cfg.asIs version st a = some (st', n, o) ∧ Ext st st' ∧ CacheOK st' ∧
       Rep H (Fresh st P) st' (Node.rotateLeft version (.inner k h s l (.inner rk rh rs rl rr rver) ver)) n ∧
-      st.heap.length ≤ n ∧ st'.heap[n]? = some cn ∧ cn.persisted = false ∧ cn.hash = none := by
+      st.heap.length ≤ n ∧ st'.heap[n]? = some cn ∧ cn.persisted = false ∧ cn.hash = none ∧
+      Rep H (Fresh st P) st' (.inner rk rh rs rl rr rver) o := by
   let P0 : Addr → Prop := fun x => P x ∧ x < st.heap.length
   have hl0 : Slot H P0 st l c.leftPtr c.leftHash := Slot.restrict H hl
   have hr0 : Slot H P0 st (.inner rk rh rs rl rr rver) c.rightPtr c.rightHash := Slot.restrict H hr
@@ -202,6 +222,7 @@ theorem rotateLeft_spec {P : Addr → Prop} {st : St} {a : Addr} {c : Cell} {k :
   have hr1 : Slot H P0 st1 (.inner rk rh rs rl rr rver) cn.rightPtr cn.rightHash := Slot.ext H hr0 he1 (fun _ _ => trivial)
   obtain ⟨st2, o, hg, he2, hc2, hro⟩ := getRight_spec H hc1 hnode1 hr1
   have hro' := Rep.restrict H hro
+  have hroQ := hro'
   let Q : Addr → Prop := fun x => Fresh st1 P0 x ∧ x < st2.heap.length
   obtain ⟨hQo, co, hco, hcok, hcoh, hrh0, hcos, hcov, hsrl, hsrr, _, _⟩ := hro'
   have hnodeQ : ¬ Q node := fun hq =>
@@ -266,7 +287,12 @@ theorem rotateLeft_spec {P : Addr → Prop} {st : St} {a : Addr} {c : Cell} {k :
     · exact Fresh.of_ext he1 (fun y hy => Or.inl hy.1) hx.1
     · exact Or.inr (Or.inl (by rw [hx]; exact Nat.le_refl _))
   have hlen : st.heap.length ≤ newNode := Nat.le_trans he1.len he2.len
-  refine ⟨st7, newNode, o, _, ?_, ?_, hc7, ?_, hlen, hnn7, rfl, rfl⟩
+  have horph : Rep H (Fresh st P) st7 (.inner rk rh rs rl rr rver) o := by
+    have h5 := Rep.ext H hroQ hQ25 (fun _ hx => hx)
+    have h6 := Rep.ext H h5 he6 (fun x hx e => hnodeQ (e ▸ hx))
+    have h7 := Rep.ext H h6 he7 (fun x hx e => hnnQ (e ▸ hx))
+    exact Rep.mono H h7 (fun x _ hx _ => hQfresh x (Or.inl hx))
+  refine ⟨st7, newNode, o, _, ?_, ?_, hc7, ?_, hlen, hnn7, rfl, rfl, horph⟩
   · have e1 : clone st a version = some (st1, node) := clone_spec' ha hc0 version
     have e3 : clone st2 o version = some (st3, newNode) := clone_spec' hco hco0 version
     have e4 : st3.modify newNode (fun c => { c with leftHash := cn.hash, leftPtr := some node }) = some st4 :=
@@ -320,16 +346,13 @@ theorem balance_spec {P : Addr → Prop} {st : St} {a : Addr} {c : Cell} {k : By
       CacheOK st' ∧
       Rep H (fun x => Fresh st P x ∨ x = a) st' (Node.balance version (.inner k h s l r ver)) n ∧
       st'.heap[n]? = some cn ∧ cn.persisted = false ∧ cn.hash = none ∧ (n = a ∨ st.heap.length ≤ n) ∧
-      (∃ extra, orph' = orphans ++ extra) := by
+      (∃ extra, orph' = orphans ++ extra ∧ ∀ x ∈ extra, Valid st' x) := by
   have hPne : ∀ x, P x → x ≠ a := fun x hx e => hPa (e ▸ hx)
   -- calcBalance(a)
   obtain ⟨st1, hb1, he1, hc1⟩ := calcBalance_spec H hc ha hl hr
   have ha1 : st1.heap[a]? = some c := he1.cells a c trivial ha
   have hl1 : Slot H P st1 l c.leftPtr c.leftHash := Slot.ext H hl he1 (fun _ _ => trivial)
   have hr1 : Slot H P st1 r c.rightPtr c.rightHash := Slot.ext H hr he1 (fun _ _ => trivial)
-  have hstart : ∀ (rest : St → Int → Option (St × Addr × List Addr)),
-      (balance Cfg.asIs version st a orphans = rest st1 ((l.height : Int) - (r.height : Int))) →
-      True := fun _ _ => trivial
   by_cases hb : (l.height : Int) - (r.height : Int) > 1
   · -- left heavy: l is an inner node
     have hlh : l.height ≠ 0 := by intro e; rw [e] at hb; omega
@@ -343,10 +366,12 @@ theorem balance_spec {P : Addr → Prop} {st : St} {a : Addr} {c : Cell} {k : By
     have hr3 : Slot H P st3 r c.rightPtr c.rightHash := Slot.ext H hr he03 (fun _ _ => trivial)
     by_cases hlb : (ll.height : Int) - (lr.height : Int) ≥ 0
     · -- left-left: single right rotation
-      obtain ⟨st4, n, o, cn, hrot, he4, hc4, hrep, hlen, hn4, hnp4, hh4⟩ :=
+      obtain ⟨st4, n, o, cn, hrot, he4, hc4, hrep, hlen, hn4, hnp4, hh4, horep⟩ :=
         rotateRight_spec H (ver := ver) version hc3 ha3 hk hh h0 hs hl3 hr3
       refine ⟨st4, n, orphans ++ [o], cn, ?_, (he03.trans he4).on _, hc4, ?_, hn4, hnp4, hh4,
-        Or.inr (Nat.le_trans he03.len hlen), ⟨_, rfl⟩⟩
+        Or.inr (Nat.le_trans he03.len hlen), ⟨_, rfl, fun x hx => ?_⟩⟩
+      rotate_left 2
+      · rw [List.mem_singleton.mp hx]; exact Rep.valid H horep
       · simp only [balance, ha, hnp, hb1, hg2, hb3, hrot, Option.bind_eq_bind, Option.bind_some, Bool.false_eq_true,
           if_false, if_pos hb, if_pos hlb]
       · have : Node.balance version (.inner k h s (.inner lk lh ls ll lr lver) r ver)
@@ -371,8 +396,9 @@ theorem balance_spec {P : Addr → Prop} {st : St} {a : Addr} {c : Cell} {k : By
       have hnotF3 : ¬ Fresh st3 P a := Fresh.not ha3 hnp hPa
       have hrl5 : Rep H (Fresh st3 P) st5 (.inner lk lh ls ll (.inner rk rh rs rl rr rver) lver) left :=
         Rep.ext H hrl4 he5 (fun x hx e => hnotF3 (e ▸ hx))
+      have hrl5' := hrl5
       obtain ⟨_, cleft, hcleft, hlk, hlhh, hlh0, hlss, _, hsll5, hslr5, _, _⟩ := hrl5
-      obtain ⟨st6, nl, lo, cnl, hrot6, he6, hc6, hrep6, hlen6, hnl6, hnp6, hh6⟩ :=
+      obtain ⟨st6, nl, lo, cnl, hrot6, he6, hc6, hrep6, hlen6, hnl6, hnp6, hh6, hlorep⟩ :=
         rotateLeft_spec H (ver := lver) version hc5 hcleft hlk hlhh hlh0 hlss hsll5 hslr5
       have ha6 : st6.heap[a]? = some c5 := he6.cells a c5 trivial ha5
       -- a.leftNode := nl
@@ -393,10 +419,23 @@ theorem balance_spec {P : Addr → Prop} {st : St} {a : Addr} {c : Cell} {k : By
         Slot.mono H (Slot.ext H hr he07 hPne) (fun _ _ hx _ => Or.inl (Or.inl hx))
       have hl7 : Slot H P7 st7 (Node.rotateLeft version (.inner lk lh ls ll (.inner rk rh rs rl rr rver) lver))
           c7.leftPtr c7.leftHash := ⟨hrep7, Or.inl rfl⟩
-      obtain ⟨st8, n, o, cn, hrot8, he8, hc8, hrep8, hlen8, hn8, hnp8, hh8⟩ :=
+      obtain ⟨st8, n, o, cn, hrot8, he8, hc8, hrep8, hlen8, hn8, hnp8, hh8, horep⟩ :=
         rotateRight_spec H (ver := ver) version hc7 ha7 hk hh h0 hs hl7 hr7
+      have hvleft : Valid st8 left := by
+        have h6 := Rep.ext H hrl5' he6 (fun _ _ => trivial)
+        have h7 := Rep.ext H h6 he7 (fun x hx e => hnotF3 (e ▸ hx))
+        exact Rep.valid H (Rep.ext H h7 he8 (fun _ _ => trivial))
+      have hvlo : Valid st8 lo := by
+        have h7 := Rep.ext H hlorep he7 (fun x hx e => hnotP7 (e ▸ hx))
+        exact Rep.valid H (Rep.ext H h7 he8 (fun _ _ => trivial))
       refine ⟨st8, n, orphans ++ [left, lo, o], cn, ?_, he07.trans (he8.on _), hc8, ?_, hn8, hnp8, hh8,
-        Or.inr (Nat.le_trans he07.len hlen8), ⟨_, rfl⟩⟩
+        Or.inr (Nat.le_trans he07.len hlen8), ⟨_, rfl, fun x hx => ?_⟩⟩
+      rotate_left 2
+      · simp only [List.mem_cons, List.mem_nil_iff, or_false] at hx
+        rcases hx with rfl | rfl | rfl
+        · exact hvleft
+        · exact hvlo
+        · exact Rep.valid H horep
       · have e5 : st4.modify a (fun c => { c with leftHash := none }) = some st5 := modify_eq ha4 _
         have e7 : st6.modify a (fun c => { c with leftPtr := some nl }) = some st7 := modify_eq ha6 _
         simp only [balance, ha, hnp, hb1, hg2, hb3, hg4, e5, hrot6, e7, hrot8, Option.bind_eq_bind, Option.bind_some,
@@ -423,10 +462,12 @@ theorem balance_spec {P : Addr → Prop} {st : St} {a : Addr} {c : Cell} {k : By
       have hr3 : Slot H P st3 (.inner rk rh rs rl rr rver) c.rightPtr c.rightHash := Slot.ext H hr he03 (fun _ _ => trivial)
       by_cases hrb : (rl.height : Int) - (rr.height : Int) ≤ 0
       · -- right-right: single left rotation
-        obtain ⟨st4, n, o, cn, hrot, he4, hc4, hrep, hlen, hn4, hnp4, hh4⟩ :=
+        obtain ⟨st4, n, o, cn, hrot, he4, hc4, hrep, hlen, hn4, hnp4, hh4, horep⟩ :=
           rotateLeft_spec H (ver := ver) version hc3 ha3 hk hh h0 hs hl3 hr3
         refine ⟨st4, n, orphans ++ [o], cn, ?_, (he03.trans he4).on _, hc4, ?_, hn4, hnp4, hh4,
-          Or.inr (Nat.le_trans he03.len hlen), ⟨_, rfl⟩⟩
+          Or.inr (Nat.le_trans he03.len hlen), ⟨_, rfl, fun x hx => ?_⟩⟩
+        rotate_left 2
+        · rw [List.mem_singleton.mp hx]; exact Rep.valid H horep
         · simp only [balance, ha, hnp, hb1, hg2, hb3, hrot, Option.bind_eq_bind, Option.bind_some, Bool.false_eq_true,
             if_false, if_neg hb, if_pos hb2, if_pos hrb]
         · have : Node.balance version (.inner k h s l (.inner rk rh rs rl rr rver) ver)
@@ -450,8 +491,9 @@ theorem balance_spec {P : Addr → Prop} {st : St} {a : Addr} {c : Cell} {k : By
         have hnotF3 : ¬ Fresh st3 P a := Fresh.not ha3 hnp hPa
         have hrr5 : Rep H (Fresh st3 P) st5 (.inner rk rh rs (.inner lk lh ls ll lr lver) rr rver) right :=
           Rep.ext H hrr4 he5 (fun x hx e => hnotF3 (e ▸ hx))
+        have hrr5' := hrr5
         obtain ⟨_, cright, hcright, hrk, hrhh, hrh0, hrss, _, hsrl5, hsrr5, _, _⟩ := hrr5
-        obtain ⟨st6, nr, ro, cnr, hrot6, he6, hc6, hrep6, hlen6, hnr6, hnp6, hh6⟩ :=
+        obtain ⟨st6, nr, ro, cnr, hrot6, he6, hc6, hrep6, hlen6, hnr6, hnp6, hh6, hrorep⟩ :=
           rotateRight_spec H (ver := rver) version hc5 hcright hrk hrhh hrh0 hrss hsrl5 hsrr5
         have ha6 : st6.heap[a]? = some c5 := he6.cells a c5 trivial ha5
         let c7 : Cell := { c5 with rightPtr := some nr }
@@ -471,10 +513,23 @@ theorem balance_spec {P : Addr → Prop} {st : St} {a : Addr} {c : Cell} {k : By
           Slot.mono H (Slot.ext H hl he07 hPne) (fun _ _ hx _ => Or.inl (Or.inl hx))
         have hr7 : Slot H P7 st7 (Node.rotateRight version (.inner rk rh rs (.inner lk lh ls ll lr lver) rr rver))
             c7.rightPtr c7.rightHash := ⟨hrep7, Or.inl rfl⟩
-        obtain ⟨st8, n, o, cn, hrot8, he8, hc8, hrep8, hlen8, hn8, hnp8, hh8⟩ :=
+        obtain ⟨st8, n, o, cn, hrot8, he8, hc8, hrep8, hlen8, hn8, hnp8, hh8, horep⟩ :=
           rotateLeft_spec H (ver := ver) version hc7 ha7 hk hh h0 hs hl7 hr7
+        have hvright : Valid st8 right := by
+          have h6 := Rep.ext H hrr5' he6 (fun _ _ => trivial)
+          have h7 := Rep.ext H h6 he7 (fun x hx e => hnotF3 (e ▸ hx))
+          exact Rep.valid H (Rep.ext H h7 he8 (fun _ _ => trivial))
+        have hvro : Valid st8 ro := by
+          have h7 := Rep.ext H hrorep he7 (fun x hx e => hnotP7 (e ▸ hx))
+          exact Rep.valid H (Rep.ext H h7 he8 (fun _ _ => trivial))
         refine ⟨st8, n, orphans ++ [right, o, ro], cn, ?_, he07.trans (he8.on _), hc8, ?_, hn8, hnp8, hh8,
-          Or.inr (Nat.le_trans he07.len hlen8), ⟨_, rfl⟩⟩
+          Or.inr (Nat.le_trans he07.len hlen8), ⟨_, rfl, fun x hx => ?_⟩⟩
+        rotate_left 2
+        · simp only [List.mem_cons, List.mem_nil_iff, or_false] at hx
+          rcases hx with rfl | rfl | rfl
+          · exact hvright
+          · exact Rep.valid H horep
+          · exact hvro
         · have e5 : st4.modify a (fun c => { c with rightHash := none }) = some st5 := modify_eq ha4 _
           have e7 : st6.modify a (fun c => { c with rightPtr := some nr }) = some st7 := modify_eq ha6 _
           simp only [balance, ha, hnp, hb1, hg2, hb3, hg4, e5, hrot6, e7, hrot8, Option.bind_eq_bind, Option.bind_some,
@@ -489,7 +544,7 @@ theorem balance_spec {P : Addr → Prop} {st : St} {a : Addr} {c : Cell} {k : By
           exact Fresh.of_ext he07 (fun y hy => Fresh.of_ext ((he03.trans he4).on (· ≠ a) |>.trans he5)
             (fun z hz => Fresh.of_ext he03 (fun _ hw => Or.inl hw) hz) hy) hx
     · -- balanced: the node itself
-      refine ⟨st1, a, orphans, c, ?_, he1.on _, hc1, ?_, ha1, hnp, hhash, Or.inl rfl, ⟨[], by simp⟩⟩
+      refine ⟨st1, a, orphans, c, ?_, he1.on _, hc1, ?_, ha1, hnp, hhash, Or.inl rfl, ⟨[], by simp, fun _ hx => by cases hx⟩⟩
       · simp only [balance, ha, hnp, hb1, Option.bind_eq_bind, Option.bind_some, Bool.false_eq_true,
           if_false, if_neg hb, if_neg hb2]
       · rw [Node.balance_eq, if_neg hb, if_neg hb2]
